@@ -238,4 +238,16 @@ theorem fact_checkAndLog_uses_its_arguments :
     Facts.checkAndLogAssigned.all (fun a => !Facts.checkAndLogParams.contains a) = true := by
   decide
 
+/-! ### T1: functions the model transcribes, statement by statement (white space collapsed) -/
+
+def expected_Writer_WriteEntries : List String := ["for _, e := range entries { e.ID = rand.Uint64() e.Time = time.Now().UTC() if err := l.enc.Encode(e); err != nil { return err } }", "return l.Sync()"]
+
+/-- WriteEntries: stamp, encode with the writer's one encoder, stop at the first failure; Sync before returning -/
+theorem fact_Writer_WriteEntries_as_transcribed : Facts.body_Writer_WriteEntries = expected_Writer_WriteEntries := by rfl
+
+def expected_audit_NewFile : List String := ["f, err := os.OpenFile(path, os.O_WRONLY|os.O_APPEND|os.O_CREATE, 0600)", "if err != nil { return nil, err }", "return New(f), nil"]
+
+/-- NewFile: write-only, append, create, owner-only -/
+theorem fact_audit_NewFile_as_transcribed : Facts.body_audit_NewFile = expected_audit_NewFile := by rfl
+
 end Setec.C06
